@@ -137,6 +137,29 @@ def hmmerMayReuse (ctx : Ctx) (maxEvalue minScore : Dec) (j : J) : Bool :=
 /-- TTA: schema 3 (the thresholds are handled by `ttaReference`) -/
 def ttaMayReuse (j : J) : Bool := intField j "schema_version" == some 3
 
+/-- the results file itself: written by schema 1–4 (4 is current, 1–3 are documented as readable;
+    a file without the field predates schema numbers) -/
+def fileMayReuse (j : J) : Bool :=
+  match field j "schema" with
+  | none => true
+  | some (.int n) => decide (1 ≤ n) && decide (n ≤ 4)
+  | some (.bool b) => b
+  | some _ => false
+
+/-- the stored hmm_detection JSON states the settings of the run `o` that produced it: its rule names,
+    its strictness and the multipliers its rule set was built with -/
+def hmmDetSavedUnder (o : HmmOpts) (j : J) : Bool :=
+  strsField j "enabled_types" == some o.ruleNames
+  && strField j "strictness" == some o.strictness
+  && (match field j "rule_results" with
+      | some rj =>
+        (match field rj "multipliers" with
+         | some mj =>
+           numField mj "cutoff" == some (if o.fungi then o.cutoffMult else Dec.one)
+           && numField mj "neighbourhood" == some (if o.fungi then o.neighMult else Dec.one)
+         | none => false)
+      | none => false)
+
 /-! #### 3. reference results under changed thresholds -/
 
 /-- TTA codons a run under threshold `opt` stores for a record with GC content `gc` whose genes
